@@ -4,7 +4,7 @@ RULE = ("random transition systems from two generators (sysgen::gen_sys with 1..
         "with 2..8 states, 0..4 inputs and shallow next/init functions so that cones are proper subsets and next/init chains are long); "
         "states with init+next / next only / init only / neither / constant (next = own symbol); array states; init functions reading "
         "earlier, later and the own state; twists: a symbol that is neither input nor state used in outputs and next functions (1/4), a "
-        "symbol with the name of a state but another width (1/8), a symbol that is input and state (1/10), two states with one symbol "
+        "symbol with the name of a state but another width or an array type (1/8), wide values 8..65 bits (1/10), a symbol that is input and state (1/10), two states with one symbol "
         "(1/12, outside the property's domain: model-vs-implementation only). Roots: EVERY expression of the system and every "
         "sub-expression, plus a literal, the foreign symbols and a fresh combination of two system symbols; each root x the 3 variants. "
         "Oracle: 3 trials per system of (1 start + 3 step) valuations and as many alternative valuations; all input/state symbols outside "
@@ -23,8 +23,8 @@ def streams(tier, seed):
     if tier == "quick":
         return [dict(tag="main", count=12000, seed=seed)]
     out = []
-    for k in range(12):
-        out.append(dict(tag="main%d" % k, count=40000, seed=seed * 1000 + k))
+    for k in range(10):
+        out.append(dict(tag="main%d" % k, count=30000, seed=seed * 1000 + k))
     out.append(dict(tag="more-trials", count=20000, seed=seed + 77, extra={"trials": 10}))
     return out
 
